@@ -17,7 +17,7 @@ int crypto_auth(unsigned char *out, const unsigned char *in, unsigned long long 
 #endif
 
 static gbuf_t gIN, gOUT, gKEY;
-static unsigned long long n_huge_bytes, n_eval, n_model, n_oneshot, n_seq, n_updates, n_zero_updates, n_hist_ops, n_finalize,
+static unsigned long long n_special, n_huge_bytes, n_eval, n_model, n_oneshot, n_seq, n_updates, n_zero_updates, n_hist_ops, n_finalize,
     n_ref, n_hmac, n_hmac_stream, n_reinit, n_bytes;
 
 static void digest_mismatch(const char *key, const char *what, const uint8_t *exp, const uint8_t *got)
@@ -466,6 +466,48 @@ int main(int argc, char **argv)
             size_t kl = rnd(&r, 4) == 0 ? 60 + rnd(&r, 10) : rnd(&r, 300), mlen = rnd(&r, 4096);
             if (mine(&a, idx)) hmac_case(&a, idx, kl, mlen);
         }
+    } else if (!strcmp(a.mode, "special")) {
+        /* corpus entries whose chaining value / digest has a rare word pattern: one-shot, every 2-way split, and the
+         * 16 | rest | 1 three-way split, each against the model; p1 = 0 one-shot only (C10), 1 splits too (C11) */
+        FILE *f = special_open();
+        special_t sp;
+        if (!f) { if (a.batch == 0) emit_info("special corpus not available ($VERIF_SPECIAL)"); }
+        else {
+            while (special_next(f, &sp)) {
+                static const size_t TAILS[] = {0, 1, 5, 15, 16, 17, 45};
+                uint8_t msg[16 + 64], d[32], e[32];
+                size_t base, t, cut;
+                int mid = !strcmp(sp.tok[0], "hashmid");
+                if (!mid && strcmp(sp.tok[0], "hashfin")) continue;
+                base = special_unhex(sp.tok[1], msg, 16);
+                for (t = 0; t < (mid ? 7u : 1u); ++t, ++idx) {
+                    size_t len = base + TAILS[t], k2;
+                    rng_t r = rng_for(a.seed, 0x5BEC, (uint64_t)idx);
+                    tinyjambu_hash_state_t st;
+                    if (!mine(&a, idx)) continue;
+                    if (mid && TAILS[t]) { msg[16] = 0x2E; for (k2 = 17; k2 < len; ++k2) msg[k2] = (uint8_t)rnd64(&r); }
+                    set_case("{\"h\":\"hash\",\"mode\":\"special\",\"i\":%ld,\"kind\":\"%s\",\"pattern\":\"%s\",\"len\":%zu}", idx, sp.tok[0], sp.tok[sp.ntok - 1], len);
+                    ++n_eval; ++n_special; cls_add(mix64(0x5BEC, (uint64_t)idx)); if (idx % 97 == 0 || a.only >= 0) emit_sample();
+                    m_hash(e, msg, len); ++n_model;
+                    tinyjambu_hash(d, msg, len); ++n_oneshot;
+                    if (memcmp(d, e, 32)) digest_mismatch("hash-spec-mismatch:special-value", "one-shot digest of a corpus message (rare internal value) differs from the model", e, d);
+                    if (a.p1 < 1) continue;
+                    for (cut = 0; cut <= len; ++cut) {
+                        memset(&st, 0xD7, sizeof st);
+                        tinyjambu_hash_init(&st); tinyjambu_hash_update(&st, msg, cut); tinyjambu_hash_update(&st, msg + cut, len - cut); tinyjambu_hash_finalize(&st, d);
+                        ++n_seq; n_updates += 2; ++n_finalize;
+                        if (memcmp(d, e, 32)) { digest_mismatch("stream-split-mismatch:special-value", "a two-way split of a corpus message (rare internal value) differs from the model", e, d); break; }
+                    }
+                    if (len > 17) {
+                        tinyjambu_hash_init(&st); tinyjambu_hash_update(&st, msg, 16); tinyjambu_hash_update(&st, msg + 16, len - 17); tinyjambu_hash_update(&st, msg + len - 1, 1); tinyjambu_hash_finalize(&st, d);
+                        ++n_seq; n_updates += 3; ++n_finalize;
+                        if (memcmp(d, e, 32)) digest_mismatch("stream-split-mismatch:special-value", "the 16 | rest | 1 split of a corpus message differs from the model", e, d);
+                    }
+                }
+            }
+            fclose(f);
+        }
+        emit_stat("special_corpus_cases", n_special);
     } else if (!strcmp(a.mode, "huge")) {
         for (i = 0; i < 4; ++i, ++idx) if (mine(&a, idx) && (a.p1 == i || a.p1 == 9)) huge_case(&a, idx, (int)i);
         emit_stat("bytes_hashed_in_huge_cases", n_huge_bytes);
